@@ -118,8 +118,11 @@ def build(scn, status_map=None, scale=1.0):
                 G.add_edge(u, v)
     H = nx.DiGraph()
     J = nx.DiGraph()
-    for s in scn["statuses"]:
-        H.add_node(sm(s))
+    # the spontaneous-transition graph names only the statuses that have a spontaneous transition, unless the scenario
+    # lists them all (a status that occurs only in induced transitions need not be a node of H)
+    if (scn["n"] + len(scn["spont"]) + sum(map(sum, scn["adj"]))) % 2 == 0:
+        for s in scn["statuses"]:
+            H.add_node(sm(s))
     calls = []
     for j, t in enumerate(scn["spont"]):
         attrs = {"rate": t["rate"] * RATE_UNIT * scale}
